@@ -11,7 +11,7 @@ import random
 import time
 
 from harness import common as C
-from harness import gen, model, ref
+from harness import failfirst, gen, model, ref
 from harness.nestfirst import effective_table
 from harness.model import T
 
@@ -139,7 +139,7 @@ def odd_field_names(rng, ty, p_cls=0.85, p_field=0.5):
         names = [f['name'] for f in info['fields']]
 
         def rename(i, new):
-            if not new.isidentifier() or keyword.iskeyword(new) or new in names:
+            if not new.isidentifier() or keyword.iskeyword(new) or new in names or hasattr(type, new):   # `__name__`: an attribute of every class
                 return False
             others = [_keys_of(n) for j, n in enumerate(names) if j != i]
             mine = _keys_of(new)
@@ -384,6 +384,49 @@ def make_history_case(rng):
     return ty, pre
 
 
+# --------------------------------------------------------------------------- histories: the first use fails and is retried
+ALIAS_SPELLINGS = [lambda n: n.upper(), lambda n: 'x-' + n, lambda n: n + ' key', lambda n: '$' + n, lambda n: n.title().replace('_', '')]
+
+
+def add_dump_declarations(rng, node, p=0.55):
+    """per-field declarations that the library's per-class dump setup has to collect: an alias that also applies to dump
+    (json_field(.., all=True)), dump=False, a skip_if_field condition, a CatchAll field"""
+    info = node['info']
+    ftys = dict((n, ft) for n, ft in node['ftys'])
+    for f in info['fields']:
+        if f.get('ann_str') or f.get('catch_all') or rng.random() >= p:
+            continue
+        r = rng.random()
+        if r < 0.45:
+            f['load_keys'] = [rng.choice(ALIAS_SPELLINGS)(f['name'])]
+            f['dump_all'] = True
+        elif r < 0.75:
+            f['dump_skip'] = True
+        else:
+            k = ftys[f['name']]['k']
+            if k in ('int', 'str', 'bool') and rng.random() < 0.5:
+                f['skip_if'] = {'op': '==', 'val': {'int': 0, 'str': '', 'bool': False}[k]}
+            else:
+                f['skip_if'] = {'op': rng.choice(['is', 'is not']), 'val': None}
+    if rng.random() < 0.3:
+        add_catch_all(rng, node, p_nested=0.0)
+
+
+def make_failed_first_case(rng):
+    """a class whose first use comes before a class named in one of its (string) annotations exists; fields after that one
+    carry declarations the per-class setup must still see when the use is repeated"""
+    o = gen.Opts(**OPTS)
+    ty = gen.gen_cls(rng, rng.choice([0, 1, 1, 2]), o)
+    spec = failfirst.add_forward_field(rng, ty, o)
+    infos = {}
+    model._collect_infos(ty, infos)
+    add_dump_declarations(rng, infos[spec['cls']])
+    for name, node in infos.items():
+        if name != spec['cls'] and rng.random() < 0.3:
+            add_dump_declarations(rng, node, p=0.3)
+    return ty, spec
+
+
 def make_tz_case(rng):
     o = gen.Opts(**TEMPORAL_OPTS)
     ty = gen.gen_cls(rng, rng.choice([0, 1, 1, 2]), o)
@@ -392,26 +435,37 @@ def make_tz_case(rng):
     return ty
 
 
-def run_case(ctx, i, ty, rng, reqs, pend, tz=None, pre=(), kind='dump'):
-    """one case = (class model, history of stand-alone dumps of nested classes `pre`, instance, local time zone `tz`)"""
+def run_case(ctx, i, ty, rng, reqs, pend, tz=None, pre=(), kind='dump', first=None):
+    """one case = (class model, history, instance, local time zone `tz`); history = stand-alone dumps of the nested classes
+    `pre`, or (`first`, see harness/failfirst.py) uses of the class that come before a class it names is defined"""
     with local_tz(tz):
-        _run_case(ctx, i, ty, rng, reqs, pend, tz, pre, kind)
+        _run_case(ctx, i, ty, rng, reqs, pend, tz, pre, kind, first)
 
 
-def _run_case(ctx, i, ty, rng, reqs, pend, tz, pre, kind):
+def _run_case(ctx, i, ty, rng, reqs, pend, tz, pre, kind, first=None):
     try:
-        built = model.Built(ty)
+        built = model.Built(ty) if first is None else failfirst.StagedBuilt(ty, first['deferred'])
     except Exception as e:   # the generator produced an unbuildable class: a harness bug, not a finding
         ctx.count('build_error')
         ctx.notes.setdefault('build_errors', []).append(repr(e)[:200])
         return
     try:
+        early = None
+        if first is not None:
+            # ---- history: uses of the class before the class named in its string annotation exists (expected to fail), then
+            # that class is defined; everything below is the repeated use
+            x0 = failfirst.early_instance(rng, ty, built, first)
+            early = failfirst.first_uses(rng, built, x0, first)
+            built.define_deferred()
         pre_insts = [_standalone_instance(rng, built.infos[n], built) for n in pre]
         x = gen.gen_instance(rng, ty, built)
         if not ctx.begin_case(i):
             return
         before = copy.deepcopy(x)
         case = {'ty': ty, 'inst': repr(x)[:400]}
+        if first is not None:
+            case['first_use'] = dict(first, outcome=early)
+            ctx.count('failed_first:' + ('failed' if any(o_ != 'ok' for _u, o_ in early) else 'did-not-fail'))
         if tz is not None:
             case['tz'] = tz
         from dataclass_wizard import asdict
@@ -501,7 +555,9 @@ def run(ctx: C.Ctx):
                  '/ default_factory) whose mapping holds JSON containers, every supported runtime type and nested instances; '
                  'histories in which nested classes are dumped on their own before the first dump of a main class with a cascading Meta; '
                  'field names outside canonical snake_case (leading / trailing / doubled underscores, dunder-like, `class_` next to '
-                 '`class`-like siblings, digit-only words) under every dump key transform, reference = the documented transforms in full.')
+                 '`class`-like siblings, digit-only words) under every dump key transform, reference = the documented transforms in full; '
+                 'histories in which the first dump / load of a class fails inside the per-class setup (a string annotation names a class '
+                 'defined only afterwards) and is repeated, with alias / dump=False / skip_if / CatchAll declarations on the other fields.')
     n = ctx.quick(1500, 20000)
     reqs, pend = [], []
     _probe_tz(ctx)
@@ -516,7 +572,7 @@ def run(ctx: C.Ctx):
     gen.CATCH_ALL_VALUES = catch_all_values
     _check_full_key_funcs()
     for fam, count in (('catch-all', ctx.quick(450, 6000)), ('standalone-first', ctx.quick(450, 6000)), ('local-tz', ctx.quick(350, 5000)),
-                       ('key-names', ctx.quick(400, 5000))):
+                       ('key-names', ctx.quick(400, 5000)), ('failed-first', ctx.quick(400, 5000))):
         for j in range(count):
             idx = base + j
             if ctx.done(idx):
@@ -526,6 +582,9 @@ def run(ctx: C.Ctx):
             crng = random.Random(f'C03:{ctx.seed}:{fam}:{j}')
             if fam == 'catch-all':
                 run_case(ctx, idx, make_catch_all_case(crng), crng, reqs, pend, tz=TZS[j % len(TZS)] if j % 4 == 3 else None, kind=fam)
+            elif fam == 'failed-first':
+                ty, spec = make_failed_first_case(crng)
+                run_case(ctx, idx, ty, crng, reqs, pend, kind=fam, first=spec)
             elif fam == 'key-names':
                 run_case(ctx, idx, make_key_name_case(crng), crng, reqs, pend, kind=fam)
             elif fam == 'standalone-first':
